@@ -34,7 +34,31 @@ DictOps ==
   \cup {Mk("d", "pop", <<k, 1, 0>>, <<>>, <<>>) : k \in {1, 2}}
   \cup {Mk("d", "clear", <<0, 0, 0>>, <<>>, <<>>)}
   \cup {Mk("dassign", "", <<0, 0, 0>>, <<>>, ps) : ps \in {q \in PairLists : Distinct(q)}}
-Init == \/ /\ kind = "list" /\ pre \in SeqsUpTo(Items, 3) /\ m \in ListOps
+\* sets: m.xs the argument set (as a sequence), a[1] the item of add / discard / remove
+SubSeqs == {<<>>, <<2>>, <<3>>, <<2, 3>>}
+SetOps ==
+       {Mk("s", op, <<y, 0, 0>>, <<>>, <<>>) : op \in {"add", "discard", "remove"}, y \in Items}
+  \cup {Mk("s", op, <<0, 0, 0>>, ys, <<>>) : op \in {"update", "ior", "iand", "isub", "ixor", "difference_update",
+                                                       "intersection_update", "symmetric_difference_update"}, ys \in SubSeqs}
+  \cup {Mk("s", "clear", <<0, 0, 0>>, <<>>, <<>>)}
+  \cup {Mk("sassign", "", <<0, 0, 0>>, ys, <<>>) : ys \in SubSeqs}
+\* the nested container: pre = the list stored under key 1 (and, when it has two items, its reverse under key 2)
+DLOps ==
+       {Mk("dl", "setitem", <<k, 0, 0, 0>>, ys, <<>>) : k \in {1, 2, 11}, ys \in SeqsUpTo(Items, 2)}
+  \cup {Mk("dl", "delitem", <<k, 0, 0, 0>>, <<>>, <<>>) : k \in {1, 2}}
+  \cup {Mk("dl", "clear", <<0, 0, 0, 0>>, <<>>, <<>>)}
+  \cup {Mk("dlin", op, <<0, 0, 0, k>>, <<y>>, <<>>) : op \in {"append", "remove"}, k \in {1, 2}, y \in Items}
+  \cup {Mk("dlin", "setitem", <<i, 0, 0, 1>>, <<y>>, <<>>) : i \in {0, -1}, y \in Items}
+  \cup {Mk("dlin", "pop", <<None, 0, 0, k>>, <<>>, <<>>) : k \in {1, 2}}
+  \cup {Mk("dlin", "clear", <<0, 0, 0, 1>>, <<>>, <<>>)}
+  \cup {Mk("dlassign", "", <<0, 0, 0, 0>>, <<>>, <<<<1, ys>>>>) : ys \in SeqsUpTo(Items, 2)}
+\* the dynamic trait: the root's child is pre[1]; m.xs: the order in which objects are given the trait (add_trait with
+\* another object's instance trait as the definition)
+DynOps == {Mk("addx", "", <<0, 0, 0>>, ys, <<>>) : ys \in {<<2>>, <<3>>, <<2, 3>>, <<3, 2>>, <<1, 2, 3>>}}
+Init == \/ /\ kind = "set" /\ pre \in SubSeqs /\ m \in SetOps
+        \/ /\ kind = "dl" /\ pre \in SeqsUpTo(Items, 2) /\ m \in DLOps
+        \/ /\ kind = "dyn" /\ pre \in {<<2>>, <<3>>} /\ m \in DynOps
+        \/ /\ kind = "list" /\ pre \in SeqsUpTo(Items, 3) /\ m \in ListOps
         \/ /\ kind = "dict" /\ pre \in {q \in SeqsUpTo({1, 2} \X Items, 2) : D!WellFormed(q)} /\ m \in DictOps
 Next == UNCHANGED vars
 Spec == Init /\ [][Next]_vars
